@@ -2,8 +2,8 @@
    vertices of the facet descriptor, with the vertex centroid on its negative
    side. *)
 From Coq Require Import List ZArith NArith Bool Reals Lra Lia.
-From T4V Require Import Base.Scalar C03.Vec C03.Model C03.Spec C03.VecFacts
-  C03.ProofsPlanes C03.ProofsQuad.
+From T4V Require Import Base.Scalar C03.Vec C03.Model C03.Convert C03.Spec C03.SpecT4
+  C03.VecFacts C03.WfFacts C03.ProofsPlanes C03.ProofsQuad.
 Import ListNotations.
 Open Scope R_scope.
 
@@ -72,7 +72,7 @@ Proof. revert i. induction l; intros [|i]; cbn; intros; try discriminate; [congr
 
 Lemma arb_plane_ok (vs : list pt) (cen : pt) (f : list nat) :
   facet_admissible vs cen f ->
-  exists e, arb_plane RS vs cen f = Ok e /\
+  exists e, arb_plane RS vs cen f = Ok e /\ entry_wf e /\
     match f with
     | i1 :: i2 :: i3 :: _ =>
         same_facet e (arb_facet (nth i1 vs origin) (nth i2 vs origin) (nth i3 vs origin) cen)
@@ -101,8 +101,12 @@ Proof.
                  = pl (vmul (- s / norm n) n) ++ [- s / norm n * dot n p1]).
   { destruct n as [[nx ny] nz]. cbn [pl vmul app map]. repeat f_equal; field; lra. }
   assert (Abs : 0 < Rabs S0) by now apply Rabs_pos_lt.
+assert (NZ : forall t, (t = s \/ t = - s) -> vmul (t / norm n) n <> (0, 0, 0)).
+  { intros t Ht. apply vmul_nz; [|exact Hz]. unfold Rdiv.
+    apply Rmult_integral_contrapositive_currified; [destruct Ht, Hsg; lra|].
+    apply Rinv_neq_0_compat; lra. }
   destruct (Rltb_case 0 (s / norm n * S0)) as [[L ->]|[L ->]].
-  - eexists; split; [reflexivity|]. rewrite Flip.
+  - eexists; split; [reflexivity|]. rewrite Flip. split; [apply wf_plane, NZ; now right|].
     exists (1 / (norm n * Rabs S0)). split.
     { apply Rdiv_lt_0_compat; [lra|]. now apply Rmult_lt_0_compat. }
     intros p. rewrite Val. unfold arb_facet. fold n S0.
@@ -116,7 +120,7 @@ Proof.
         assert (0 < 1 / norm n) by (apply Rdiv_lt_0_compat; lra).
         replace (-1 / norm n * S0) with (- (1 / norm n * S0)) in L by (field; lra). nra. }
       rewrite Rabs_left by lra. field. lra.
-  - eexists; split; [reflexivity|].
+  - eexists; split; [reflexivity|]. split; [apply wf_plane, NZ; now left|].
     exists (1 / (norm n * Rabs S0)). split.
     { apply Rdiv_lt_0_compat; [lra|]. now apply Rmult_lt_0_compat. }
     intros p. rewrite Val. unfold arb_facet. fold n S0.
@@ -136,14 +140,15 @@ Qed.
 
 Lemma arb_planes_ok (vs : list pt) (facets : list (list nat)) :
   Forall (facet_admissible vs (centroid_of vs)) facets ->
-  exists es, arb_planes RS vs (centroid_of vs) facets = Ok es /\
+  exists es, arb_planes RS vs (centroid_of vs) facets = Ok es /\ Forall entry_wf es /\
              Forall2 same_facet es (arb_facets vs facets).
 Proof.
-  induction 1 as [|f facets Hf _ (es & E & F)].
-  - exists []. split; [reflexivity|constructor].
-  - destruct (arb_plane_ok vs (centroid_of vs) f Hf) as (e & Ee & Fe).
+  induction 1 as [|f facets Hf _ (es & E & W & F)].
+  - exists []. split; [reflexivity|split; constructor].
+  - destruct (arb_plane_ok vs (centroid_of vs) f Hf) as (e & Ee & We & Fe).
     cbn [arb_planes]. rewrite Ee, E. cbn [bind].
-    eexists; split; [reflexivity|]. cbn [arb_facets map]. constructor; [|exact F].
+    eexists; split; [reflexivity|]. split; [now constructor|].
+    cbn [arb_facets map]. constructor; [|exact F].
     destruct Hf as (i1 & i2 & i3 & rest & _ & _ & _ & -> & _). exact Fe.
 Qed.
 
@@ -156,13 +161,13 @@ Proof.
 Qed.
 
 
-Theorem arb_facets_ok (V : list pt) (descr : list N) :
+Lemma arb_facets_ok_full (V : list pt) (descr : list N) :
   List.length V = 8%nat -> List.length descr = 6%nat ->
   let n := arb_nvert descr in
   let vs := firstn n V in
   (1 <= n <= 8)%nat ->
   Forall (facet_admissible vs (centroid_of vs)) (arb_facet_lists descr) ->
-  exists es, arb RS (flat V) descr = Ok es /\
+  exists es, arb RS (flat V) descr = Ok es /\ Forall entry_wf es /\
              Forall2 same_facet es (arb_facets vs (arb_facet_lists descr)).
 Proof.
   intros HV Hd n vs Hn Adm. unfold arb, len_is.
@@ -177,4 +182,18 @@ Proof.
   assert (Cen : rescale RS (1 / IZR (Z.of_nat n)) (vsum_list RS vs) = centroid_of vs).
   { unfold centroid_of. rewrite Lvs, <- INR_IZR_INZ. reflexivity. }
   change (@vec R) with pt. fold vs. rewrite Cen. now apply arb_planes_ok.
+Qed.
+
+Theorem arb_facets_ok (V : list pt) (descr : list N) :
+  List.length V = 8%nat -> List.length descr = 6%nat ->
+  let n := arb_nvert descr in
+  let vs := firstn n V in
+  (1 <= n <= 8)%nat ->
+  Forall (facet_admissible vs (centroid_of vs)) (arb_facet_lists descr) ->
+  exists es, arb RS (flat V) descr = Ok es /\
+             Forall2 same_facet es (arb_facets vs (arb_facet_lists descr)).
+Proof.
+  intros HV Hd n vs Hn Adm.
+  destruct (arb_facets_ok_full V descr HV Hd Hn Adm) as (es & E & _ & F).
+  exists es; split; assumption.
 Qed.
